@@ -57,7 +57,12 @@ THEOREMS = ([
 RULE = ("exhaustive enumeration of (entry point, argument layout in {python list, ndarray of exactly the stored "
         "dtype C-contiguous, view into a larger array, non-contiguous strided/transposed, other float dtype}, "
         "archive dtype in {float64, float32}, archive class / emitter class / scheduler class) x random callee "
-        "states (prefix of adds / ask-tell rounds with random layouts); one stratum per entry-point family. A case "
+        "states (prefix of adds / ask-tell rounds with random layouts); one stratum per entry-point family. Read "
+        "paths (dict / tuple / single field / pandas columns in numerical order name_0..name_{m-1} / iteration / "
+        "get_field / iterelites, element-wise against data()) are compared for every archive class and ArrayStore x "
+        "dtype x three dimension profiles: solution_dim, measure_dim and the vector extra field range over 1..13, "
+        "vectors of >= 11 components occur for every class and dtype in every run, all components of a vector are "
+        "pairwise distinct; the strata archive.read, archive.iter and store also draw such dimensions. A case "
         "is non-trivial when a monitored call receives at least one ndarray argument that np.asarray would not "
         "copy, or returns at least one array, on a non-empty callee state; counted once per distinct op list")
 PARTIAL = [
@@ -453,30 +458,45 @@ def trash_output(x, depth=0):
 # --------------------------------------------------------------------------
 # worlds: the callee objects of a case
 
-SOL_DIM, MEAS_DIM = 3, 2
-RANGES = [(-1.0, 1.0), (-1.0, 1.0)]
-CENTROIDS = np.array([[-0.75, -0.5], [-0.25, 0.5], [0.25, -0.25], [0.5, 0.75], [0.75, -0.75], [0.0, 0.0]])
+DEFAULT_DIMS = (3, 2, 2)  # solution_dim, measure_dim, length of the vector extra field `ex`
+MAX_DIM = 13
 ARCH_KINDS = ["grid", "grid_mae", "cvt", "cvt_brute", "sba", "prox", "prox_lc"]
+
+
+def case_dims(case):
+    """(solution_dim, measure_dim, extra-field length) of a case; every archive class supports 1..13 for each
+    (grids use 2 cells per dimension once the measure space has more than 4 dimensions)."""
+    d = case.get("dims")
+    return tuple(int(x) for x in d) if d else DEFAULT_DIMS
+
+
+def centroids(md):
+    if md == 2:
+        return np.array([[-0.75, -0.5], [-0.25, 0.5], [0.25, -0.25], [0.5, 0.75], [0.75, -0.75], [0.0, 0.0]])
+    return np.random.default_rng(5).integers(-7, 8, (6, md)) / 8.0
 
 
 def make_archive(kind, dt, case):
     from ribs.archives import CVTArchive, GridArchive, ProximityArchive, SlidingBoundariesArchive
-    extra = {"ex": ((2,), dt)}
+    sd, md, xd = case_dims(case)
+    extra = {"ex": ((xd,), dt)}
+    ranges = [(-1.0, 1.0)] * md
     seed = 11
     if kind in ("grid", "grid_mae"):
         kw = {"learning_rate": 0.5, "threshold_min": -10.0} if kind == "grid_mae" else {}
-        return GridArchive(solution_dim=SOL_DIM, dims=[4, 4], ranges=RANGES, dtype=dt, extra_fields=extra,
-                           seed=seed, **kw)
+        return GridArchive(solution_dim=sd, dims=[4 if md <= 4 else 2] * md, ranges=ranges, dtype=dt,
+                           extra_fields=extra, seed=seed, **kw)
     if kind in ("cvt", "cvt_brute"):
-        return CVTArchive(solution_dim=SOL_DIM, cells=len(CENTROIDS), ranges=RANGES, dtype=dt,
-                          custom_centroids=CENTROIDS.copy(), use_kd_tree=(kind == "cvt"), extra_fields=extra,
+        cen = centroids(md)
+        return CVTArchive(solution_dim=sd, cells=len(cen), ranges=ranges, dtype=dt,
+                          custom_centroids=cen, use_kd_tree=(kind == "cvt"), extra_fields=extra,
                           seed=seed)
     if kind == "sba":
-        return SlidingBoundariesArchive(solution_dim=SOL_DIM, dims=[3, 3], ranges=RANGES, dtype=dt,
+        return SlidingBoundariesArchive(solution_dim=sd, dims=[3 if md <= 4 else 2] * md, ranges=ranges, dtype=dt,
                                         remap_frequency=case.get("remap", 3), buffer_capacity=case.get("buf", 4),
                                         extra_fields=extra, seed=seed)
     if kind in ("prox", "prox_lc"):
-        return ProximityArchive(solution_dim=SOL_DIM, measure_dim=MEAS_DIM, k_neighbors=2, novelty_threshold=0.3,
+        return ProximityArchive(solution_dim=sd, measure_dim=md, k_neighbors=2, novelty_threshold=0.3,
                                 local_competition=(kind == "prox_lc"), initial_capacity=2, dtype=dt,
                                 extra_fields=extra, seed=seed)
     raise ValueError(kind)
@@ -485,7 +505,8 @@ def make_archive(kind, dt, case):
 def make_emitter(spec, archive, k):
     from ribs.emitters import (EvolutionStrategyEmitter, GaussianEmitter, GradientArborescenceEmitter,
                                GradientOperatorEmitter, IsoLineEmitter)
-    x0 = np.array([0.25, -0.5, 0.125])
+    x0 = (np.array([0.25, -0.5, 0.125, 0.75, -0.125, 0.5, -0.75, 0.375, -0.25, 0.625, -0.375, 0.875, -0.625])
+          [:archive.solution_dim])
     kind = spec["kind"]
     seed = 100 + k
     if kind == "gauss":
@@ -517,6 +538,7 @@ class World:
         self.dt = DTYPES[self.dtname]
         self.other = OTHER[self.dtname]
         self.kind = case.get("arch")
+        self.dims = case_dims(case)
         self.archive = make_archive(self.kind, self.dt, case) if self.kind else None
         self.store = None
         self.opt = None
@@ -524,8 +546,8 @@ class World:
         self.sched = None
         if case.get("store"):
             from ribs.archives import ArrayStore
-            self.store = ArrayStore({"objective": ((), self.dt), "measures": ((2,), self.dt),
-                                     "solution": ((3,), self.dt)}, 8)
+            self.store = ArrayStore({"objective": ((), self.dt), "measures": ((self.dims[1],), self.dt),
+                                     "solution": ((self.dims[0],), self.dt)}, 8)
         if case.get("opt"):
             from ribs.emitters.opt import AdamOpt, GradientAscentOpt
             theta0 = np.array([0.5, -0.25, 1.0], dtype=self.dt)
@@ -635,13 +657,20 @@ class Call:
         self.out_alias_ok = out_alias_ok
 
 
-def gen_rows(seed, n):
-    """Row values of a batch, all dyadic (exact in float32)."""
+def gen_rows(seed, n, dims=DEFAULT_DIMS):
+    """Row values of a batch, all dyadic (exact in float32). Within one row all components of a vector
+    field are pairwise distinct, so that a permutation of the components is visible."""
+    sd, md, xd = dims
     r = np.random.default_rng(seed)
-    sol = r.integers(-64, 64, (n, SOL_DIM)) / 64.0
+
+    def distinct(lo, hi, k):
+        return np.stack([r.permutation(np.arange(lo, hi))[:k] for _ in range(n)]).reshape(n, k) if n else \
+            np.zeros((0, k))
+
+    sol = distinct(-64, 64, sd) / 64.0
     obj = r.integers(-16, 16, n) / 4.0
-    meas = r.integers(-63, 63, (n, MEAS_DIM)) / 64.0
-    ex = r.integers(0, 100, (n, 2)).astype(np.float64)
+    meas = distinct(-63, 63, md) / 64.0
+    ex = distinct(0, 100, xd).astype(np.float64)
     return sol, obj, meas, ex
 
 
@@ -663,7 +692,7 @@ def archive_cls(w):
 
 
 def calls_add(w, op):
-    sol, obj, meas, ex = gen_rows(op["seed"], op["n"])
+    sol, obj, meas, ex = gen_rows(op["seed"], op["n"], w.dims)
     a = [mk(w, op, "solution", sol, 1), mk(w, op, "objective", obj, 2), mk(w, op, "measures", meas, 3),
          mk(w, op, "ex", ex, 4)]
     abits = [("a", "solution", False), ("a", "objective", True), ("a", "measures", True), ("a", "ex", False)]
@@ -678,7 +707,7 @@ def calls_add(w, op):
 
 
 def calls_add_single(w, op):
-    sol, obj, meas, ex = gen_rows(op["seed"], 1)
+    sol, obj, meas, ex = gen_rows(op["seed"], 1, w.dims)
     a = [mk(w, op, "solution", sol[0], 1), mk(w, op, "measures", meas[0], 3), mk(w, op, "ex", ex[0], 4)]
     if w.kind == "sba":
         lean, bits = "SlidingBoundariesArchive.add_single", [("a", "solution", False), ("a", "measures", True),
@@ -693,7 +722,7 @@ def calls_add_single(w, op):
 
 
 def calls_retrieve(w, op):
-    _, _, meas, _ = gen_rows(op["seed"], op.get("n", 3))
+    _, _, meas, _ = gen_rows(op["seed"], op.get("n", 3), w.dims)
     if op["op"] == "retrieve":
         a = [mk(w, op, "measures", meas, 3)]
         yield Call(f"{archive_cls(w)}.retrieve", "ArchiveBase.retrieve", [("a", "measures", False)], a,
@@ -738,7 +767,7 @@ def calls_iter(w, op):
 
 def calls_cqd(w, op):
     r = np.random.default_rng(op["seed"])
-    tp = r.integers(-8, 8, (2, 3, MEAS_DIM)) / 8.0
+    tp = r.integers(-8, 8, (2, 3, w.dims[1])) / 8.0
     pen = np.array([0.0, 0.5, 1.0])
     a = [mk(w, op, "target_points", tp, 5, exact=np.float64, other=np.float32),
          mk(w, op, "penalties", pen, 6, exact=np.float64, other=np.float32)]
@@ -750,7 +779,7 @@ def calls_cqd(w, op):
 
 
 def calls_store_add(w, op):
-    sol, obj, meas, _ = gen_rows(op["seed"], op["n"])
+    sol, obj, meas, _ = gen_rows(op["seed"], op["n"], w.dims)
     r = np.random.default_rng(op["seed"] + 1)
     idx = r.integers(0, 8, op["n"])
     a = [mk(w, op, "indices", idx, 7, exact=np.int32, other=np.int64), mk(w, op, "objective", obj, 2),
@@ -785,10 +814,10 @@ def calls_store_raw(w, op):
 # ---- schedulers and emitters
 
 
-def eval_values(seed, n):
-    sol, obj, meas, ex = gen_rows(seed, n)
+def eval_values(seed, n, dims=DEFAULT_DIMS):
+    sol, obj, meas, ex = gen_rows(seed, n, dims)
     r = np.random.default_rng(seed + 7)
-    jac = r.integers(-8, 9, (n, MEAS_DIM + 1, SOL_DIM)) / 4.0
+    jac = r.integers(-8, 9, (n, dims[1] + 1, dims[0])) / 4.0
     jac[jac == 0] = 0.5  # no zero rows: norms stay away from 0
     return obj, meas, ex, jac
 
@@ -800,7 +829,7 @@ def sched_name(w):
 def calls_tell(w, op):
     sols = w.sched.ask()
     n = len(sols)
-    obj, meas, ex, _ = eval_values(op["seed"], n)
+    obj, meas, ex, _ = eval_values(op["seed"], n, w.dims)
     a = [mk(w, op, "objective", obj, 2), mk(w, op, "measures", meas, 3), mk(w, op, "ex", ex, 4)]
     lean = "BanditScheduler.tell" if sched_name(w) == "BanditScheduler" else "Scheduler.tell"
     bits = [("a", "objective", False), ("a", "measures", False), ("a", "ex", False),
@@ -812,7 +841,7 @@ def calls_dqd_round(w, op):
     """ask_dqd / tell_dqd / ask / tell through the scheduler."""
     sols = w.sched.ask_dqd()
     n = len(sols)
-    obj, meas, ex, jac = eval_values(op["seed"], n)
+    obj, meas, ex, jac = eval_values(op["seed"], n, w.dims)
     a = [mk(w, op, "objective", obj, 2), mk(w, op, "measures", meas, 3), mk(w, op, "ex", ex, 4),
          mk(w, op, "jacobian", jac, 5)]
     bits = [("a", "objective", False), ("a", "measures", False), ("a", "ex", False), ("a", "jacobian", False),
@@ -834,7 +863,7 @@ def info_arg(w, op, info):
 
 def emitter_tell_call(w, e, op, sols):
     n = len(sols)
-    obj, meas, ex, _ = eval_values(op["seed"], n)
+    obj, meas, ex, _ = eval_values(op["seed"], n, w.dims)
     info = w.archive.add(np.array(sols, dtype=w.dt), obj.astype(w.dt), meas.astype(w.dt), ex=ex.astype(w.dt))
     a = [mk(w, op, "solution", np.asarray(sols, dtype=np.float64), 1), mk(w, op, "objective", obj, 2),
          mk(w, op, "measures", meas, 3), mk(w, op, "ex", ex, 4), info_arg(w, op, info)]
@@ -865,7 +894,7 @@ def calls_emitter_dqd(w, op):
     e = w.emitters[op.get("e", 0) % len(w.emitters)]
     sols = e.ask_dqd()
     n = len(sols)
-    obj, meas, ex, jac = eval_values(op["seed"], n)
+    obj, meas, ex, jac = eval_values(op["seed"], n, w.dims)
     info = w.archive.add(np.array(sols, dtype=w.dt), obj.astype(w.dt), meas.astype(w.dt), ex=ex.astype(w.dt))
     a = [mk(w, op, "solution", np.asarray(sols, dtype=np.float64), 1), mk(w, op, "objective", obj, 2),
          mk(w, op, "measures", meas, 3), mk(w, op, "ex", ex, 4), mk(w, op, "jacobian", jac, 5),
@@ -881,7 +910,7 @@ def calls_emitter_dqd(w, op):
 
 def calls_step(w, op):
     r = np.random.default_rng(op["seed"])
-    g = r.integers(-8, 9, 3) / 4.0
+    g = r.integers(-8, 9, 3) / 4.0  # theta0 of the optimizer worlds has 3 components
     a = [mk(w, op, "gradient", g, 1)]
     cls = type(w.opt).__name__
     yield Call(f"{cls}.step", f"{cls}.step", [("a", "gradient", False)], a, lambda: w.opt.step(a[0].obj))
@@ -929,9 +958,9 @@ def calls_helper(w, op):
     from ribs.archives import _transforms as T
     which = op["which"]
     n = op.get("n", 3)
-    sol, obj, meas, ex = gen_rows(op["seed"], n)
+    sol, obj, meas, ex = gen_rows(op["seed"], n, w.dims)
     if which == "validate_batch":
-        _, _, _, jac = eval_values(op["seed"], n)
+        _, _, _, jac = eval_values(op["seed"], n, w.dims)
         info = {"status": np.arange(n, dtype=np.int32) % 3, "value": obj.astype(w.dt)}
         a = [mk(w, op, "solution", sol, 1), mk(w, op, "objective", obj, 2), mk(w, op, "measures", meas, 3),
              mk(w, op, "ex", ex, 4), info_arg(w, op, info), mk(w, op, "jacobian", jac, 5)]
@@ -1216,12 +1245,32 @@ def check_readpaths(w, where):
     df = src.data(return_type="pandas")
     if len(df) != n:
         return bad(f"pandas view has {len(df)} rows, len() = {n}")
+    # pandas columns: a scalar field is one column `name`; a vector field of length m is the m columns
+    # name_0 .. name_{m-1} in NUMERICAL order, column name_j holding component j of every elite
+    want_cols = []
+    for k in fields:
+        want_cols += [k] if d[k].ndim == 1 else [f"{k}_{j}" for j in range(d[k].shape[1])]
+    if list(df.columns) != want_cols:
+        return bad(f"pandas columns are {list(df.columns)}, expected {want_cols}")
+    for k in fields:
+        names = [k] if d[k].ndim == 1 else [f"{k}_{j}" for j in range(d[k].shape[1])]
+        for j, c in enumerate(names):
+            col = df[c].to_numpy()
+            ref = d[k] if d[k].ndim == 1 else d[k][:, j]
+            if col.dtype != dts[k] or fp_value(col) != fp_value(ref):
+                return bad(f"pandas column {c!r} differs from data()[{k!r}]"
+                           f"{'' if d[k].ndim == 1 else f'[:, {j}]'} (dtype {col.dtype}, declared "
+                           f"{np.dtype(dts[k])})")
     if w.archive is not None:
         for k in fields:
             g = df.get_field(k)
-            if g is None or g.dtype != dts[k] or fp_value(g.reshape(d[k].shape)) != fp_value(d[k]):
-                return bad(f"ArchiveDataFrame.get_field({k!r}) differs from dict view "
-                           f"(dtype {None if g is None else g.dtype}, declared {np.dtype(dts[k])})")
+            if g is None or g.dtype != dts[k] or g.shape != d[k].shape or fp_value(g) != fp_value(d[k]):
+                where_ = ""
+                if g is not None and g.shape == d[k].shape and d[k].ndim == 2 and n:
+                    badc = [j for j in range(d[k].shape[1]) if not np.array_equal(g[:, j], d[k][:, j])]
+                    where_ = f"; components {badc[:6]} differ, first elite: {g[0].tolist()} vs {d[k][0].tolist()}"
+                return bad(f"ArchiveDataFrame.get_field({k!r}) differs from data()[{k!r}] "
+                           f"(dtype {None if g is None else g.dtype}, declared {np.dtype(dts[k])}{where_})")
         rows = list(df.iterelites())
         if len(rows) != n:
             return bad(f"iterelites yields {len(rows)} elites, len() = {n}")
@@ -1229,15 +1278,10 @@ def check_readpaths(w, where):
             if sorted(e.keys()) != sorted(fields):
                 return bad(f"iterelites entry {i} has fields {sorted(e.keys())}")
             for k in fields:
-                if fp_value(np.asarray(e[k], dtype=dts[k])) != fp_value(d[k][i]) or \
-                        np.asarray(e[k]).dtype != dts[k]:
-                    return bad(f"iterelites entry {i} field {k!r} differs from dict view")
-    else:
-        for k in fields:
-            cols = [c for c in df.columns if c == k or c.startswith(k + "_")]
-            g = df[cols].to_numpy().reshape(d[k].shape) if n else None
-            if n and (fp_value(g.astype(dts[k])) != fp_value(d[k]) or any(df[c].dtype != dts[k] for c in cols)):
-                return bad(f"pandas columns of {k!r} differ from dict view")
+                v = np.asarray(e[k])
+                if v.dtype != dts[k] or v.shape != d[k][i].shape or fp_value(v) != fp_value(d[k][i]):
+                    return bad(f"iterelites entry {i} field {k!r} = {v.tolist()} differs from "
+                               f"data()[{k!r}][{i}] = {np.asarray(d[k][i]).tolist()}")
     it = list(src)
     if len(it) != n:
         return bad(f"iteration yields {len(it)} entries, len() = {n}")
@@ -1431,7 +1475,11 @@ def gen_archive_read(rng, c):
         ops = [{"op": "add", "n": 3, "seed": rng.randrange(10**6), "layout": "list" if k == "sba" else "exact"}] + ops
     ops.append(target_read_op(rng, t, L))
     ops += prefix_adds(rng, 1, k)
-    return {"arch": k, "dtype": d, "ops": ops}
+    case = {"arch": k, "dtype": d, "ops": ops}
+    if rng.random() < 0.34:
+        case["dims"] = pick_dims(rng, rng.choice(DIM_PROFILES))
+        ops.append({"op": "readpaths"})
+    return case
 
 
 def combos_best():
@@ -1457,9 +1505,12 @@ def store_prefix(rng, k):
 
 def gen_iter(rng, c):
     k, d = c
+    dims = pick_dims(rng, rng.choice(DIM_PROFILES)) if rng.random() < 0.5 else list(DEFAULT_DIMS)
     if k == "store":
-        return {"store": True, "dtype": d, "ops": store_prefix(rng, rng.randint(1, 3)) + [{"op": "iter"}]}
-    return {"arch": k, "dtype": d, "ops": prefix_adds(rng, rng.randint(1, 3), k) + [{"op": "iter"}]}
+        return {"store": True, "dtype": d, "dims": dims,
+                "ops": store_prefix(rng, rng.randint(1, 3)) + [{"op": "iter"}, {"op": "readpaths"}]}
+    return {"arch": k, "dtype": d, "dims": dims,
+            "ops": prefix_adds(rng, rng.randint(1, 3), k) + [{"op": "iter"}, {"op": "readpaths"}]}
 
 
 def combos_store():
@@ -1489,7 +1540,11 @@ def gen_store(rng, c):
         t["rt"], t["sel"] = rt, sel
     ops.append(t)
     ops += store_prefix(rng, 1)
-    return {"store": True, "dtype": d, "ops": ops}
+    case = {"store": True, "dtype": d, "ops": ops}
+    if rng.random() < 0.34:
+        case["dims"] = pick_dims(rng, rng.choice(DIM_PROFILES))
+        ops.append({"op": "readpaths"})
+    return case
 
 
 EMITTER_SETS = {
@@ -1639,21 +1694,36 @@ def gen_helpers(rng, c):
     return {"arch": k, "dtype": d, "ops": ops}
 
 
+DIM_PROFILES = ["wide_solution", "wide_measures", "random"]
+
+
+def pick_dims(rng, profile):
+    """(solution_dim, measure_dim, extra length). The first two profiles put >= 11 components into every
+    vector field between them (pandas column names name_10.. sort differently as text and as numbers); they
+    occur for every class and dtype in every run. The third draws every length from 1..13."""
+    if profile == "wide_solution":
+        return [rng.choice([11, 12, 13]), rng.choice([1, 2, 3]), rng.choice([11, 12, 13])]
+    if profile == "wide_measures":
+        return [rng.choice([1, 2, 10]), rng.choice([11, 12, 13]), rng.choice([1, 10, 11])]
+    return [rng.randint(1, MAX_DIM), rng.choice([1, 2, 3, 4, 5, rng.randint(6, MAX_DIM)]), rng.randint(1, MAX_DIM)]
+
+
 def combos_readpaths():
-    return [(k, d) for k in ARCH_KINDS + ["store"] for d in DTYPES]
+    return [(k, d, p) for p in DIM_PROFILES for k in ARCH_KINDS + ["store"] for d in DTYPES]
 
 
 def gen_readpaths(rng, c):
-    k, d = c
+    k, d, prof = c
+    dims = pick_dims(rng, prof)
     if k == "store":
         ops = []
-        for _ in range(rng.randint(1, 4)):
+        for _ in range(rng.randint(1, 3)):
             ops += store_prefix(rng, 1) + [{"op": "readpaths"}]
-        return {"store": True, "dtype": d, "ops": ops}
+        return {"store": True, "dtype": d, "dims": dims, "ops": ops}
     ops = []
-    for _ in range(rng.randint(1, 4)):
+    for _ in range(rng.randint(1, 3)):
         ops += prefix_adds(rng, rng.randint(1, 2), k) + [{"op": "readpaths"}]
-    return {"arch": k, "dtype": d, "ops": ops}
+    return {"arch": k, "dtype": d, "dims": dims, "ops": ops}
 
 
 def nontrivial(case):
@@ -1698,7 +1768,7 @@ def strata(ctx):
         ("opt.step", combos_opt(), gen_opt, (2, 20), (1, 10)),
         ("visualize.df", combos_viz(ctx.quick), gen_viz, (1, 4), (6, 80)),
         ("helpers", combos_helpers(), gen_helpers, (1, 5), (3, 30)),
-        ("readpaths", combos_readpaths(), gen_readpaths, (3, 30), (2, 30)),
+        ("readpaths", combos_readpaths(), gen_readpaths, (1, 10), (4, 40)),
     ]
 
 
